@@ -125,6 +125,7 @@ func run(b *harness.B) {
 	case 1:
 		runV1Chain(b)
 		runExtreme(b)
+		runHugeContract(b)
 		if b.Batch == 1 {
 			runHostileAmounts(b)
 		}
